@@ -43,7 +43,8 @@ var trace = os.Getenv("VERIF_TRACE") != ""
 //	drop / join   peer N unregisters / registers
 //	jump          the clock jumps N seconds with requests in flight
 //	crash         the process dies (no graceful save): a new syncer starts on the disk image of that
-//	              instant, minus the last N mutation units (N > 0: power loss, nothing was synced)
+//	              instant, minus the last N mutation units (N > 0: power loss, nothing was synced;
+//	              N = -1: everything after the last progress-journal write is lost, N = -2: that write too)
 type Op struct {
 	After int    `json:"after"`
 	K     string `json:"k"`
@@ -137,6 +138,7 @@ type runState struct {
 	complete bool
 	stopAt  time.Duration // virtual instant at which faults stopped
 	cycleErrs, errsAfterStop int
+	powerLoss bool
 	outcome simcore.Hash64
 }
 
@@ -292,6 +294,7 @@ func (rs *runState) doOp(op Op) {
 		rs.writeHeaders(0, rs.pivot) // the header chain is the downloader's business, not the syncer's
 		rs.newSyncer()
 		if lost > 0 {
+			rs.powerLoss = true
 			rs.res.Fault("power-loss")
 		} else {
 			rs.res.Fault("crash")
@@ -566,6 +569,23 @@ func applyUnit(mem *memorydb.Database, op *simdisk.KVOp) {
 // the last `lose` units (power loss; the syncer never syncs, so any suffix may be gone).
 func (rs *runState) crashImage(lose int) (*memorydb.Database, int) {
 	log := rs.kv.Snapshot()
+	if lose < 0 {
+		// cut relative to the last write of the progress journal: -1 keeps it and
+		// drops everything after it, -2 drops it as well
+		j := -1
+		for i := len(log) - 1; i >= 0 && j < 0; i-- {
+			if unitTouches(&log[i], syncStatusKey) {
+				j = i
+			}
+		}
+		if j < 0 {
+			lose = 1
+		} else if lose == -1 {
+			lose = len(log) - (j + 1)
+		} else {
+			lose = len(log) - j
+		}
+	}
 	if lose > len(log) {
 		lose = len(log)
 	}
@@ -577,6 +597,20 @@ func (rs *runState) crashImage(lose int) (*memorydb.Database, int) {
 		applyUnit(mem, &log[i])
 	}
 	return mem, lose
+}
+
+var syncStatusKey = []byte("SnapshotSyncStatus")
+
+func unitTouches(op *simdisk.KVOp, key []byte) bool {
+	if op.Kind == simdisk.OpBatch {
+		for i := range op.Batch {
+			if unitTouches(&op.Batch[i], key) {
+				return true
+			}
+		}
+		return false
+	}
+	return bytes.Equal(op.Key, key)
 }
 
 func (rs *runState) initDisk() {
@@ -615,6 +649,10 @@ func runWorld(p *Plan, res *simcore.Result) *runState {
 	}
 	if rs.viol == nil {
 		rs.viol = rs.checkDisk()
+	}
+	if rs.viol != nil && isKnown(rs.viol.Key) {
+		res.KnownHit(rs.viol.Key)
+		rs.viol = nil
 	}
 	return rs
 }
@@ -810,11 +848,24 @@ func (rs *runState) checkDisk() *simcore.Violation {
 		wantKeys = append(wantKeys, k)
 	}
 	sort.Strings(wantKeys)
+	var missing, wrong []string
 	for _, k := range wantKeys {
 		got, _ := mem.Get([]byte(k))
-		if !bytes.Equal(got, want[k]) {
-			return simcore.Violf("final-trie", "trie node %x of the target state: Node B has %x, want %x", k, got, want[k])
+		if len(got) == 0 {
+			missing = append(missing, fmt.Sprintf("%x", k))
+		} else if !bytes.Equal(got, want[k]) {
+			wrong = append(wrong, fmt.Sprintf("%x", k))
 		}
+	}
+	if len(missing)+len(wrong) > 0 {
+		v := simcore.Violf("final-trie", "Sync returned nil but of the %d nodes of the target tries %d are missing and %d differ on Node B (keys: scheme %s; missing %v wrong %v)",
+			len(wantKeys), len(missing), len(wrong), rs.p.SchemeB, head(missing, 6), head(wrong, 6))
+		if !v2 && rs.p.SchemeB == rawdb.PathScheme && rs.powerLoss && len(wrong) == 0 {
+			// see NOTES.md: the healer's "root already on disk" check predates the
+			// range download that deletes boundary nodes
+			v.Key = "final-trie:snap1-path-status-lost-after-heal"
+		}
+		return v
 	}
 	if rs.p.SchemeB == rawdb.PathScheme {
 		extra := 0
@@ -854,6 +905,13 @@ func (rs *runState) checkDisk() *simcore.Violation {
 		}
 	}
 	return nil
+}
+
+func head(s []string, n int) []string {
+	if len(s) > n {
+		return append(append([]string{}, s[:n]...), "...")
+	}
+	return s
 }
 
 func crypto256(b []byte) []byte {
